@@ -108,6 +108,4 @@ func printResult(hr *interp.HarnessResult) {
 	}
 }
 
-func cmdCheck(args []string) int    { fmt.Println("not yet"); return 2 }
-func cmdReplay(args []string) int   { fmt.Println("not yet"); return 2 }
 func cmdSelftest(args []string) int { fmt.Println("not yet"); return 2 }
